@@ -1,5 +1,5 @@
 (* C07 correspondence: cases as printed by harness/c07. *)
-From Verif Require Export Lib.Base Model.C07_Strategies.
+From Verif Require Export Lib.Base Model.C07_Strategies Model.C07_Spec.
 From Coq Require Import QArith.
 Open Scope N_scope.
 
@@ -25,12 +25,42 @@ Definition result_eqb (a b : result) : bool :=
   end.
 Definition outcome_eqb := prod_eqb result_eqb N.eqb.
 
+(* well-formedness of a printed case (true by construction of the harness; checked so that the
+   theorem [agree c = true -> P_b c = true] needs no side condition): equal ids carry equal
+   contents, and every content has the type the strategy's interface fixes *)
+Definition raw_eqb (a b : raw) : bool :=
+  match a, b with
+  | RAtt n1 t1 s1 so1 ta1 r1, RAtt n2 t2 s2 so2 ta2 r2 =>
+      Bool.eqb n1 n2 && Bool.eqb t1 t2 && (s1 =? s2) && (so1 =? so2) && (ta1 =? ta2) && (r1 =? r2)
+  | RAgg n1 s1 l1, RAgg n2 s2 l2 => Bool.eqb n1 n2 && (s1 =? s2) && (l1 =? l2)
+  | RProp v1 f1 c1 e1, RProp v2 f2 c2 e2 => (v1 =? v2) && (f1 =? f2) && (c1 =? c2) && (e1 =? e2)
+  | RContrib n1 s1, RContrib n2 s2 => Bool.eqb n1 n2 && (s1 =? s2)
+  | RRoot r1, RRoot r2 => r1 =? r2
+  | ROpaque n1, ROpaque n2 => Bool.eqb n1 n2
+  | _, _ => false
+  end.
+
+Definition resp_of (p : prov) : option value := match pv_beh p with BRespond v => Some v | _ => None end.
+
+Definition ids_okb (ps : list prov) : bool :=
+  forallb (fun p1 => forallb (fun p2 =>
+    match resp_of p1, resp_of p2 with
+    | Some v1, Some v2 => negb (v_id v1 =? v_id v2) || raw_eqb (v_raw v1) (v_raw v2)
+    | _, _ => true
+    end) ps) ps.
+
+Definition typedb (st : strategy) (ps : list prov) : bool :=
+  forallb (fun p => match resp_of p with Some v => raw_family st (v_raw v) | None => true end) ps.
+
+Definition wf_case (c : case) : bool := ids_okb (c_provs c) && typedb (c_strat c) (c_provs c).
+
 (* model = implementation: the observed (result, instant of return) is one of the model's
    outcomes over the orders of simultaneous events and of the Go map iteration; every provider
    was called exactly once *)
 Definition agree (c : case) : bool :=
-  memb outcome_eqb (o_res (c_obs c), o_time (c_obs c)) (outcomes (c_strat c) (c_params c) (c_provs c))
-  && list_eqb N.eqb (o_calls (c_obs c)) (map (fun _ => 1) (c_provs c)).
+  wf_case c &&
+  (memb outcome_eqb (o_res (c_obs c), o_time (c_obs c)) (outcomes (c_strat c) (c_params c) (c_provs c))
+   && list_eqb N.eqb (o_calls (c_obs c)) (map (fun _ => 1) (c_provs c))).
 
 (* ------------------------------------------------------------------------------------------- *)
 (* The property on the OBSERVED output (the model's loops are not consulted).
@@ -100,6 +130,44 @@ Definition P_b (c : case) : bool :=
       && forallb (fun tu => negb (fst tu <? ot)) all
   | TFirst, RErr => forallb (fun tv => negb (fst tv <? T)) all
   | _, _ => false
+  end.
+
+(* ------------------------------------------------------------------------------------------- *)
+(* The same property as a proposition over the nodes ([gives], [gives_ok], [cnt] are in
+   Model/C07_Spec.v).  Proofs/C07_Check.v: [P_b c = true -> P c] when equal ids carry equal
+   contents (P_b means what it should), and [agree c = true -> P_b c = true]. *)
+Definition P (c : case) : Prop :=
+  let st := c_strat c in let pr := c_params c in let ps := c_provs c in
+  let T := p_timeout pr in let ot := o_time (c_obs c) in
+  let soft := forall p1 v1, In p1 ps -> gives_ok st pr p1 v1 -> pv_time p1 < T / 2 -> ot <= T / 2 in
+  ot <= T /\ o_calls (c_obs c) = map (fun _ => 1) ps /\
+  match template_of st, o_res (c_obs c) with
+  | TBest, RVal id =>
+      (exists p0 v, In p0 ps /\ gives_ok st pr p0 v /\ v_id v = id /\ pv_time p0 <= ot
+         /\ forall p1 v1, In p1 ps -> gives_ok st pr p1 v1 -> pv_time p1 < ot ->
+                          sgt (vscore st pr v1) (vscore st pr v) = false)
+      /\ soft
+  | TBest, RErr => forall p1 v1, In p1 ps -> gives_ok st pr p1 v1 -> T <= pv_time p1
+  | (TMajAtt | TMajRoot) as tp, RVal id =>
+      (exists p0 v, In p0 ps /\ gives_ok st pr p0 v /\ v_id v = id /\ pv_time p0 <= ot
+         /\ (1 <= cnt st pr ps (fun x => (x <=? ot)%N) id)%Z
+         /\ (maj_thr st pr <= cnt st pr ps (fun x => (x <=? ot)%N) id)%Z
+         /\ forall p1 v1, In p1 ps -> gives_ok st pr p1 v1 ->
+              (cnt st pr ps (fun x => (x <? ot)%N) (v_id v1) <= cnt st pr ps (fun x => (x <=? ot)%N) id)%Z
+              /\ (cnt st pr ps (fun x => (x <? ot)%N) (v_id v1) = cnt st pr ps (fun x => (x <=? ot)%N) id
+                  -> vslot pr v1 <= vslot pr v))
+      /\ (tp = TMajRoot -> soft)
+  | (TMajAtt | TMajRoot), RErr =>
+      forall p1 v1, In p1 ps -> gives_ok st pr p1 v1 ->
+                    (cnt st pr ps (fun x => (x <? T)%N) (v_id v1) < Z.max 1 (maj_thr st pr))%Z
+  | TFirst, RVal id =>
+      (exists p0 v, In p0 ps /\ gives pr p0 v /\ v_id v = id /\ is_nil (v_raw v) = false /\ pv_time p0 = ot)
+      /\ forall p1 v1, In p1 ps -> gives pr p1 v1 -> ot <= pv_time p1
+  | TFirst, RNil =>
+      (exists p0 v, In p0 ps /\ gives pr p0 v /\ is_nil (v_raw v) = true /\ pv_time p0 = ot)
+      /\ forall p1 v1, In p1 ps -> gives pr p1 v1 -> ot <= pv_time p1
+  | TFirst, RErr => forall p1 v1, In p1 ps -> gives pr p1 v1 -> T <= pv_time p1
+  | _, _ => False
   end.
 
 Definition mismatches (cs : list case) : list N := failing_ids c_id agree cs.
